@@ -180,7 +180,8 @@ Silence(pre, fn, x) ==
          [] f \in {"Su", "Dl"} -> EraseMarks(x, ((IF f = "Su" THEN pre.top ELSE pre.row) - 1)..pre.rows)       \* PartialRegionScrollClearsWrapMark
          [] f = "Sd" -> EraseMarks(x, {pre.top - 1, pre.bottom})                      \* marks of the rows adjacent to a scrolled range
          [] f = "Il" -> EraseMarks(x, {pre.row - 1, IF pre.row <= pre.bottom THEN pre.bottom ELSE pre.rows - 1})
-         [] f = "Ri" /\ IsScrollingStep(pre, fn) -> EraseMarks(x, {pre.top - 1, pre.bottom})
+         [] f = "Ri" /\ IsScrollingStep(pre, fn)
+              -> EraseMarks([x EXCEPT !.col = Min2(@, x.cols - 1), !.pw = FALSE], {pre.top - 1, pre.bottom})    \* (a scrolling RI and a pending wrap: as for LF)
          [] f = "Print" /\ pre.autowrap /\ pre.pw /\ pre.row = pre.bottom -> EraseMarks(x, (pre.top - 1)..pre.bottom)
          [] f = "Ech" /\ pre.col >= pre.cols -> EraseMarks(x, {pre.row})             \* EchAtWrapColumnClearsMark
          [] f = "El" /\ ((fn.a[1] = 1 /\ pre.col >= pre.cols - 1) \/ (fn.a[1] = 0 /\ pre.col >= pre.cols)) -> EraseMarks(x, {pre.row})   \* El1KeepsMark
@@ -425,15 +426,24 @@ Tags(e, prevs, p0) ==
   ELSE <<>>
 \* ------------------------------------------------------ util::TextCollector (C14, C09)
 HandleTc(ll, e) ==
-  IF e.ev = "tcnew" THEN [tcs |-> Append(tcs, [vt |-> Fresh(e.cols, e.rows, e.lim), carry |-> <<>>, acc |-> <<>>]), msgs |-> <<>>]
+  IF e.ev = "tcnew" THEN [tcs |-> Append(tcs, [vt |-> Fresh(e.cols, e.rows, e.lim), carry |-> <<>>, acc |-> <<>>, adrift |-> FALSE]), msgs |-> <<>>]
   ELSE IF e.ev = "tcfs" THEN
-    LET c == tcs[e.tc]  r == FeedStr(c.vt, e.s)  u == Unwrap(r.dr, c.carry) IN
-    [tcs |-> [tcs EXCEPT ![e.tc] = [vt |-> r.vt, carry |-> u.carry, acc |-> c.acc \o e.out]],
-     msgs |-> IF u.out = e.out THEN <<>> ELSE <<Msg("CONF", ll, "what=collector owners={\"C09\", \"C14\"} TextCollector::feed_str yields " \o S(Len(e.out)) \o " lines, specification " \o S(Len(u.out)))>>]
+    (* The terminal inside the collector is logged (hook).  Where it took the step the specification takes, the  *)
+    (* strings handed out must be the unwrapping of the lines that step drains.  Where it did not (a divergence  *)
+    (* of the terminal itself - judged on the Vt traces, possibly a silent point), nothing can be said about     *)
+    (* this call's output; the comparison continues from the logged state, with the carry re-derived from what  *)
+    (* the collector has handed out so far being impossible, the collector is marked "adrift" and only the       *)
+    (* relational check (tcrel: same text under every limit and chunking) speaks from then on.                   *)
+    LET c == tcs[e.tc]  r == FeedStr(c.vt, e.s)  u == Unwrap(r.dr, c.carry)
+        same == Normal(r.vt.t, r.dr) = Normal(e.st.t, r.dr) /\ ParserLive(r.vt.p) = ParserLive(e.st.p)
+        adrift == c.adrift \/ ~same
+    IN
+    [tcs |-> [tcs EXCEPT ![e.tc] = [vt |-> IF adrift THEN e.st ELSE r.vt, carry |-> u.carry, acc |-> c.acc \o e.out, adrift |-> adrift]],
+     msgs |-> IF adrift \/ u.out = e.out THEN <<>> ELSE <<Msg("CONF", ll, "what=collector owners={\"C09\", \"C14\"} TextCollector::feed_str yields " \o S(Len(e.out)) \o " lines, specification " \o S(Len(u.out)))>>]
   ELSE IF e.ev = "tcflush" THEN
     LET c == tcs[e.tc]  want == CollectorFlush(c.vt.t.buf.lines, c.carry) IN
     [tcs |-> [tcs EXCEPT ![e.tc].acc = @ \o e.out],
-     msgs |-> IF want = e.out THEN <<>> ELSE <<Msg("CONF", ll, "what=collector owners={\"C09\", \"C14\"} TextCollector::flush differs from the specification")>>]
+     msgs |-> IF c.adrift \/ want = e.out THEN <<>> ELSE <<Msg("CONF", ll, "what=collector owners={\"C09\", \"C14\"} TextCollector::flush differs from the specification")>>]
   ELSE \* tcrel: every collector of the list produced the same text
     [tcs |-> tcs,
      msgs |-> IF \A i \in 2..Len(e.tcs) : DropTrailingEmpty(tcs[e.tcs[i]].acc) = DropTrailingEmpty(tcs[e.tcs[1]].acc) THEN <<>>
